@@ -358,7 +358,10 @@ func (st *programState) runSaveStatement(saveStatement parser.SaveStatement) ([]
 	balance := st.getCachedBalance(*account, *asset)
 
 	if amt == nil {
-		balance.Set(big.NewInt(0))
+		// save everything: hide the whole balance (a negative balance is not raised)
+		if balance.Sign() > 0 {
+			balance.Set(big.NewInt(0))
+		}
 	} else {
 		// Do not allow negative saves
 		if amt.Cmp(big.NewInt(0)) == -1 {
@@ -368,11 +371,14 @@ func (st *programState) runSaveStatement(saveStatement parser.SaveStatement) ([]
 			}
 		}
 
-		// we decrease the balance by "amt"
-		balance.Sub(balance, amt)
-		// without going under 0
-		if balance.Cmp(big.NewInt(0)) == -1 {
-			balance.Set(big.NewInt(0))
+		// a balance that is already negative (or zero) has nothing to save
+		if balance.Sign() > 0 {
+			// we decrease the balance by "amt"
+			balance.Sub(balance, amt)
+			// without going under 0
+			if balance.Cmp(big.NewInt(0)) == -1 {
+				balance.Set(big.NewInt(0))
+			}
 		}
 	}
 
